@@ -428,6 +428,48 @@ def trySet (m : Matrix α) (row column : Nat) (value : α) : Option (Matrix α) 
     else none
   else none
 
+/-! ### Display (`format_view`, views.rs:855-891, used by `impl Display for Matrix`) -/
+
+/-- one row of `format_view`: for every column the value (through `try_get_reference`, a missing
+    cell is the `panic!`), followed by `", "` unless it is the last column -/
+def formatRowLoop (get : Nat → Option String) (columns : Nat) : List Nat → Outcome (List String)
+  | [] => .ok []
+  | c :: rest =>
+    match get c with
+    | none => .panic .explicit
+    | some v =>
+      match formatRowLoop get columns rest with
+      | .panic k => .panic k
+      | .ok ts => .ok (v :: (if c < columns - 1 then [", "] else []) ++ ts)
+
+/-- the rows of `format_view`: two spaces before every row but the first, a newline after every
+    row but the last -/
+def formatRowsLoop (row : Nat → Outcome (List String)) (rows : Nat) : List Nat → Outcome (List String)
+  | [] => .ok []
+  | r :: rest =>
+    match row r with
+    | .panic k => .panic k
+    | .ok ts =>
+      match formatRowsLoop row rows rest with
+      | .panic k => .panic k
+      | .ok tss =>
+        .ok ((if 0 < r then ["  "] else []) ++ ts ++ (if r < rows - 1 then ["\n"] else []) ++ tss)
+
+/-- the pieces `format_view` writes for a matrix, in order (`show` renders one element; the
+    precision argument only affects that rendering) -/
+def formatTokens (sh : α → String) (m : Matrix α) : Outcome (List String) :=
+  match formatRowsLoop
+      (fun r => formatRowLoop (fun c => (m.tryGet r c).map sh) m.columns (List.range m.columns))
+      m.rows (List.range m.rows) with
+  | .panic k => .panic k
+  | .ok ts => .ok ("[ " :: ts ++ [" ]"])
+
+/-- `format!("{}", matrix)` -/
+def display (sh : α → String) (m : Matrix α) : Outcome String :=
+  match formatTokens sh m with
+  | .panic k => .panic k
+  | .ok ts => .ok (String.join ts)
+
 /-! ### operations as data, histories -/
 
 /-- The operation alphabet of C11. -/
